@@ -52,8 +52,17 @@ type c18Case struct {
 	method string
 }
 
+// sub is the second-level status code nested under the top-level one in this case ("" = none). Only the top-level code
+// decides whether the logout succeeded; PartialLogout and friends merely qualify it.
+func (k c18Case) sub() string {
+	if k.status.absent {
+		return ""
+	}
+	return []string{"", "", saml.StatusPartialLogout, saml.StatusAuthnFailed, saml.StatusSuccess}[(len(k.status.kind)+k.enc+len(k.method)+int(k.delay/time.Second)+len(k.trust.Name))%5]
+}
+
 func (k c18Case) String() string {
-	return fmt.Sprintf("trust=%s signer=%s dest=%s issuer=%s status=%s D=%v expiry-offset=%v enc=%d method=%s", k.trust.Name, k.signer, k.dest.kind, k.issuer.kind, k.status.kind, k.delay, k.offset, k.enc, shortAlg(k.method))
+	return fmt.Sprintf("trust=%s signer=%s dest=%s issuer=%s status=%s"+map[bool]string{true: "+sub:" + k.sub()[strings.LastIndex(k.sub(), ":")+1:], false: ""}[k.sub() != ""]+" D=%v expiry-offset=%v enc=%d method=%s", k.trust.Name, k.signer, k.dest.kind, k.issuer.kind, k.status.kind, k.delay, k.offset, k.enc, shortAlg(k.method))
 }
 
 func c18MakeEvil(el *etree.Element) {
@@ -222,6 +231,9 @@ func c18Build(o *so.Oracle, k c18Case) ([]byte, time.Time, error) {
 		rmEl(el, "./Status")
 	} else {
 		setOrRemoveAttr(el.FindElement("./Status/StatusCode"), "Value", k.status)
+		if sub := k.sub(); sub != "" {
+			el.FindElement("./Status/StatusCode").CreateElement("samlp:StatusCode").CreateAttr("Value", sub)
+		}
 	}
 	if k.signer != "" {
 		s, err := o.Sign(el, fx.K(k.signer), k.method)
